@@ -11,7 +11,9 @@ import (
 
 	"github.com/antonmedv/expr"
 	"github.com/antonmedv/expr/ast"
+	"github.com/antonmedv/expr/file"
 	"github.com/antonmedv/expr/parser"
+	"github.com/antonmedv/expr/parser/lexer"
 	"github.com/antonmedv/expr/vm"
 	"pgregory.net/rapid"
 
@@ -229,6 +231,11 @@ func c04Watchdog(rec *core.Recorder, limit time.Duration) {
 	}
 }
 
+type countVisitor struct{ n int }
+
+func (c *countVisitor) Enter(*ast.Node) { c.n++ }
+func (c *countVisitor) Exit(*ast.Node)  {}
+
 func guard(stage string, f func()) (panicked string) {
 	defer func() {
 		if r := recover(); r != nil {
@@ -292,6 +299,19 @@ func judgeC04(c *core.Case, cfg *core.Config) core.Verdict {
 	}
 	if perr == nil && (tree == nil || tree.Node == nil) {
 		return fail("parser.Parse returns neither a tree nor an error")
+	}
+	// traversal cost: ast.Walk over the parsed tree must be linear in the input. (A node shared between two
+	// slots and walked through both doubles the work per nesting level - exponential time for a few hundred
+	// bytes of input; this count is the deterministic stand-in for "hangs".)
+	if perr == nil {
+		cnt := &countVisitor{}
+		if p := guard("ast.Walk", func() { ast.Walk(&tree.Node, cnt) }); p != "" {
+			return fail(p)
+		}
+		if toks, lerr := lexer.Lex(file.NewSource(src)); lerr == nil && cnt.n > 4*len(toks)+8 {
+			return fail(fmt.Sprintf("ast.Walk over the parsed tree of a %d-token source makes %d visits: traversal is not linear in the input (hang for deeper nesting)", len(toks), cnt.n))
+		}
+		// parse again: the walk above must not be what the compile stage sees
 	}
 	// Compile
 	var prog *vm.Program
@@ -381,6 +401,30 @@ var c04Hostile = []string{"", " ", "?.", "#", "..", "0x", "0x_", "1e", "1e+", ".
 	"'a' in {a: 1}", "1 in {a: 1}", "all(1..3, {# > 0 ? true : nil})", "map(1..3, {nil})", "all(1..2, {n})", "filter(1..3, {#})", "one(1..3, {[]})", "map(map(1..2, {1..#}), {map(#, {#})})", "count(1..99, {count(1..99, {true}) > 0})",
 	"a ? b : c ? d : e", "a ?: b", "true ? 1", "? 1 : 2", "a and", "or b", "a b", "a + * b", "a +", "-", "--1", "- - -1", "!!true", "not not true", "+'a'", "-'a'", "'a' + 1", "1 + 'a'", "[] + []", "{} + {}", "1 < 'a'", "'a' < 1",
 	"'a' contains 1", "1 startsWith 'a'", "'a' endsWith nil", "nil matches nil", "a matches '(?P<x'", "'a' matches '\\\\'", "1..2 == [1,2]", "[1] == [1]", "{a:1} == {a:1}", "[[[[[[[[[[[[[[[[[[[[1]]]]]]]]]]]]]]]]]]]]", "((((((((((((((((((((1))))))))))))))))))))"}
+
+func init() {
+	nest := func(open, leaf, close string, d int) string {
+		return strings.Repeat(open, d) + leaf + strings.Repeat(close, d)
+	}
+	c04Hostile = append(c04Hostile, nest("all(Grid, {", "B", "})", 4)) // nested loops multiply run time: shallow only
+	for _, d := range []int{8, 22, 48} {
+		c04Hostile = append(c04Hostile,
+			nest("(", "B", " ?: true)", d),          // left-nested ?:
+			"B"+strings.Repeat(" ?: (B", d)+strings.Repeat(")", d), // right-nested ?:
+			nest("Inc(", "1", ")", d),               // calls nested in arguments
+			nest("Half(", "1", ")", d),
+			nest("Sum(1, ", "2", ")", d),
+			nest("Var(", "I", ")", d),
+			nest("len(map(", "Xs", ", {#}))", d),
+			nest("(B ? ", "1", " : 2)", d),
+			"P"+strings.Repeat("?.Next", d)+"?.V",
+			nest("[", "1", "]", d)+strings.Repeat("[0]", d),
+			nest("-", "I", "", d), nest("not ", "B", "", d),
+			"N"+strings.Repeat(".Deep", d)+".V",
+			nest("{a: ", "1", "}", d),
+			"Es[0]"+strings.Repeat(".Next", d)+".Add(1)")
+	}
+}
 
 func c04MutateTokens(t *rapid.T, toks []string) []string {
 	n := rapid.IntRange(1, 3).Draw(t, "nmut")
